@@ -220,7 +220,8 @@ example : Chain exF ⟨1, 1, 0, none, [10]⟩ 5 6 := by
   have c5 : Chain exF ⟨1, 1, 0, none, [10]⟩ 4 6 := Chain.step (i := 4) c4 ⟨by decide, by decide, by decide⟩
   exact Chain.carry c5 (j := 5) (by decide)
 
-/-! ### negation witnesses: the REAL dumped results of two recorded replays (pinned tree 25e32d0)
+/-! ### negation witnesses: the REAL dumped results of two recorded replays on the pinned tree 25e32d0
+(both defects have since been repaired — 327a23f, f02a8b5 — the literals below are the OLD results)
 
 `exB` is the SSA image of `_, e := source2(); s, ok := e.(string); if ok { sink(s) }`
 (corpus/findings/C08b_commaok_extract, first flow) and `exBS`/`exBE` the state and edges the real pass
